@@ -130,6 +130,9 @@ def check_c02(seed, tier):
                     space = index_space(n, m, rng, tier)
                     if tier == "quick":
                         space = rng.sample(space, min(len(space), 120))
+                    elif n > 5:
+                        # exhaustive on the small images, sampled on the larger ones (keeps the thorough tier within minutes)
+                        space = rng.sample(space, min(len(space), 1500))
                     for ix in space:
                         evals += 1
                         distinct.add((n, m, level, rpc, str(_describe(ix))))
